@@ -72,6 +72,11 @@ func init() {
 		Rule: "units = every ordered list of up to 3 distinct atoms of {\"a\",\"bé\",1,2,1.5,true,false,null} conforming to the declared type (absent, string, integer, number, boolean, null, [string,null]) x 5 uses (required, optional, via $ref, array items, optional with default); documents = the 8 atoms, 4 non-members of different JSON types, absent. Judged: verdict, decoded value and re-marshalled value (bare JSON value), and the typed string constants read from the emitted source. distinct_nontrivial = distinct (unit, document) pairs with a definite reference verdict"}
 }
 
+func init() {
+	families["C09"] = &rt.Family{Prop: "C09", Module: "MC_C09", PackSize: 1, Judge: "value", JudgeBuild: true,
+		Rule: "units = 19 property kinds (integer, number, string with quote/backslash/non-ASCII, boolean, nullable integer/string, typed/untyped/mixed enum, arrays of string/integer, nested array, object with required fields inline and via $ref, object with optional fields, typed additionalProperties map, date, date-time, sized integer) x 2 defaults x required flag; documents = property absent, null, present with another value, present with the default. Judged: verdict, decoded value (absent/null => default, present => document value), re-marshalled value, and that the emitted package compiles. distinct_nontrivial = distinct (unit, document) pairs with a definite reference verdict"}
+}
+
 func hasMult(u *rt.Unit) bool {
 	b := fmt.Sprint(u.Raw["schema"], u.Raw["defs"])
 	return containsStr(b, "multipleOf")
